@@ -6,6 +6,10 @@ CONSTANTS
   Caps = {0, 1, 2, 4}
   Len0s = {0, 1, 2}
   Sizes = {0, 1, 3, 5}
+  ExtExact = {0, 1, 3, 5}
+  ExtNoHint = {1, 5}
+  ExtUnder = {1, 3, 5}
+  ExtOver = {0, 1, 3}
   AdvSizes = {0, 1, 2}
   Avails = {0, 2, 5}
   CapAts = {0, 1, 3, 5}
